@@ -265,6 +265,21 @@ void sk_child_exit(int pi, int status_word)
   p->status = status_word;
 }
 
+/* the child ends but its descriptors stay open in a descendant that lives on */
+void sk_child_exit_keep(int pi, int status_word)
+{
+  struct sk_proc *p = &K->proc[pi];
+  if (p->state != PS_RUNNING && p->state != PS_FORKING) return;
+  p->state = PS_ZOMBIE;
+  p->status = status_word;
+}
+/* ... and that descendant ends too */
+void sk_grand_gone(int pi)
+{
+  struct sk_proc *p = &K->proc[pi];
+  for (int i = 0; i < SK_MAXFD; i++) if (p->fd[i].ofd >= 0) fd_close(p, i);
+}
+
 void sk_child_close(int pi, int fd)
 {
   struct sk_proc *p = &K->proc[pi];
